@@ -28,6 +28,9 @@ T = {
  "C18": ("closed-form + invariance + triangle monitors on the seven metric functions (single and N-row)",
          "Runtime monitoring: pairs at a generator-known relative angle t (1e-4..pi incl. exactly pi and pi/2, bands around removed shortcuts) are evaluated as-is, swapped, negated, left- and right-multiplied and as batches through the real metric functions and compared with the closed forms; random, close and collinear triples exercise the triangle inequality.",
          "NumPy; rotations built by vt/ref/quat.py; arccos-based metrics granted eps/t (and sqrt(eps) next to pi) accuracy", "5/C18"),
+ "C07": ("differential monitor: N-row entry point vs the single-item entry point of the real code on every row",
+         "Runtime monitoring: for 50 operation pairs (QuaternionArray vs Quaternion incl. both storage orders and 7 from_DCM methods, N-by-3-by-3 hughes/chiaverini, q2R, rpy2q, am2angles, ned2enu, five metrics, every single-frame estimator x method x representation x frame) generated rows (half-turns, near-identity, near-pi, coordinate-plane axes, magnitudes over 5 decades) are run through both copies and compared row by row without sign freedom; one-row batch and one-sample constructor calls are compared with estimate() using the same options.",
+         "NumPy; both sides are library code; closed-form from_DCM rows above pi-1e-6 and metric pairs below 1e-4 rad are outside C02/C18's domains and not paired", "5/C07"),
 }
 
 def main():
